@@ -341,3 +341,186 @@ def value_lattice(ctx):
                 if len(samples) < 3:
                     samples.append({"sig": sig, "flavor": fl, "rows": rows[:2], "second": [sig2, fl2]})
     return bad, {"calls": n_calls, "elements_compared": n_elems, "backend_distribution": dist}, samples
+
+
+# ------------------------------------------------------------------------------------------------ C04/C03: dimension changes on arrays
+KW_LON = [("z", 2.5), ("theta", 0.75), ("eta", -1.25)]
+KW_TMP = [("t", 7.75), ("tau", 0.13957)]
+KW_TMP_MOM = [("E", 7.75), ("e", 6.5), ("energy", 5.25), ("M", 0.13957), ("m", 0.511), ("mass", 1.875)]
+INT_RANGES = {"x": (-5, 5), "y": (-5, 5), "rho": (1, 6), "phi": (-3, 3), "z": (-4, 4), "theta": (1, 3), "eta": (-2, 2), "t": (9, 14), "tau": (0, 5)}
+
+
+def int_rows(r, sig, n):
+    return [[r.randint(*INT_RANGES[c]) or 1 for c in C.signames(sig)] for _ in range(n)]
+
+
+def typed_array(tag, fl, sig, rows, dtype):
+    names = C.field_names(fl, sig)
+    cols = {nm: numpy.array([row[j] for row in rows], dtype=dtype) for j, nm in enumerate(names)}
+    return vector.array(cols) if tag == "N." else vector.zip(cols)
+
+
+def dimension_lattice(ctx):
+    """to_Vector2D/3D/4D, to_2D/3D/4D, like and to_<system>(keyword) on NumPy and Awkward arrays whose stored columns are float64,
+    int64 or float32: element i must equal the object-backend result for element i — retained stored coordinates and imputed
+    keyword values EXACTLY (C04: bit-for-bit), computed coordinates within rounding.  -> (bad, stats)"""
+    r = C.rng(ctx.seed, "dimension-lattice")
+    bad, n_calls, n_elems = [], 0, 0
+    dist = {}
+    thorough = ctx.tier == "thorough"
+    for dtype in (numpy.float64, numpy.int64, numpy.float32):
+        for tag in ("N.", "A."):
+            for dim in (2, 3, 4):
+                sigs = C.SIGS[dim] if thorough else r.sample(C.SIGS[dim], min(3, len(C.SIGS[dim])))
+                for sig in sigs:
+                    for fl in (("g", "m") if thorough else (r.choice("gm"),)):
+                        rows = int_rows(r, sig, 4)
+                        if dtype is numpy.float64:
+                            rows = [[x + 0.5 if c in ("x", "y", "z", "eta") else x + 0.25 for x, c in zip(row, C.signames(sig))] for row in rows]
+                        arr = typed_array(tag, fl, sig, rows, dtype)
+                        objs = [C.obj_vec(fl, sig, row) for row in rows]
+                        calls = []
+                        kl, vl = r.choice(KW_LON)
+                        kt, vt = r.choice(KW_TMP + (KW_TMP_MOM if fl == "m" else []))
+                        if fl == "m" and kl == "z" and r.random() < 0.5:
+                            kl = "pz"
+                        if dim == 2:
+                            calls += [("to_Vector3D", {kl: vl}, True), ("to_3D", {kl: vl}, True), ("to_Vector3D", {}, True),
+                                      ("to_Vector4D", {kl: vl, kt: vt}, True), ("to_4D", {kt: vt}, True), ("to_Vector4D", {kl: vl}, True),
+                                      ("to_xyz", {"z": 0.5}, False), ("to_rhophieta", {"eta": -0.75}, False),
+                                      ("to_xythetatau", {"theta": 1.25, "tau": 0.3}, False), ("to_rhophizt", {"z": 1.5}, False)]
+                            if fl == "m":
+                                calls += [("to_ptphietamass", {"eta": 0.625, "mass": 0.13957}, False), ("to_pxpypzenergy", {"pz": 1.5, "energy": 9.25}, False)]
+                        if dim == 3:
+                            calls += [("to_Vector4D", {kt: vt}, True), ("to_4D", {kt: vt}, True), ("to_Vector4D", {}, True), ("to_Vector2D", {}, True),
+                                      ("to_2D", {}, True), ("to_Vector3D", {}, True), ("to_xyzt", {"t": 7.5}, False), ("to_rhophietatau", {"tau": 0.3}, False)]
+                            if fl == "m":
+                                calls += [("to_ptphietamass", {"mass": 0.13957}, False), ("to_pxpythetaenergy", {"energy": 9.25}, False)]
+                        if dim == 4:
+                            calls += [("to_Vector3D", {}, True), ("to_3D", {}, True), ("to_Vector2D", {}, True), ("to_Vector4D", {}, True)]
+                        # like(): projection / embedding with zeros, other operand in either backend
+                        for d2 in (2, 3, 4):
+                            s2 = r.choice(C.SIGS[d2])
+                            other = C.obj_vec(r.choice("gm"), s2, int_rows(r, s2, 1)[0])
+                            calls.append(("like", other, True))
+                        # an imputed coordinate given as an array of values
+                        if dim == 2 and tag == "N.":
+                            calls.append(("to_Vector3D", {"z": numpy.array([0.5, 1.5, 2.5, 3.5])}, True))
+                        for m, kw, exact in calls:
+                            n_calls += 1
+                            key = f"dimension:{tag}{numpy.dtype(dtype).name}:{m}"
+                            desc = f"{m}({kw if isinstance(kw, dict) else 'other=' + str(kw)}) on {tag}{fl}:{sig} dtype {numpy.dtype(dtype).name}"
+                            try:
+                                res = getattr(arr, m)(**kw) if isinstance(kw, dict) else getattr(arr, m)(kw)
+                                want = []
+                                for i, o in enumerate(objs):
+                                    kwi = {k: (float(v[i]) if isinstance(v, numpy.ndarray) else v) for k, v in kw.items()} if isinstance(kw, dict) else None
+                                    want.append(elem_value(getattr(o, m)(**kwi) if kwi is not None else getattr(o, m)(kw)))
+                            except Exception as e:  # noqa: BLE001
+                                bad.append((desc, f"raises {type(e).__name__}: {str(e)[:100]}", key))
+                                continue
+                            got = flatten_result(res, len(rows))
+                            for i, (g, w) in enumerate(zip(got, want)):
+                                n_elems += 1
+                                same = g is not None and g[0] == w[0] == "v" and g[1] == w[1] and (
+                                    all(float(x) == float(y) for x, y in zip(g[2], w[2])) if exact and dtype is not numpy.float32
+                                    else all(close64(x, y, 10.0) if dtype is not numpy.float32 else abs(float(x) - float(y)) <= 1e-5 * max(1.0, abs(float(y)))
+                                             for x, y in zip(g[2], w[2])))
+                                if exact and dtype is numpy.float32 and same:
+                                    # float32 storage: retained columns are float32 values (exactly representable), imputed values exact
+                                    same = all(float(x) == float(y) for x, y in zip(g[2], w[2]))
+                                if not same:
+                                    bad.append((f"{desc} element {i} stored {rows[i]}", f"array {g} object {w}", key))
+                                    break
+                            dist[tag + numpy.dtype(dtype).name] = dist.get(tag + numpy.dtype(dtype).name, 0) + 1
+    return bad, {"dimension_calls": n_calls, "dimension_elements": n_elems, "dimension_distribution": dist}
+
+
+# ------------------------------------------------------------------------------------------------ C05/C11: operators and ufuncs = methods (values)
+def _canon(res, n):
+    """per-element canonical values of a result (array of vectors / numbers, or single vector / number)"""
+    import awkward as ak
+    if isinstance(res, ak.Array) and res.ndim > 1:
+        res = ak.flatten(res)
+    return flatten_result(res, n)
+
+
+def operator_value_lattice(ctx):
+    """every operator / numpy ufunc form gives the value AND type of the method it stands for, on the object, NumPy and Awkward
+    (flat and jagged) backends: * / unary - + abs ** numpy.{absolute,square,sqrt,cbrt,power,multiply,divide,negative,positive}
+    against scale / rho|mag|tau / rho2|mag2|tau2, and + - @ == != numpy.{add,subtract,matmul,equal,not_equal} against
+    add / subtract / dot / equal / not_equal.   -> (bad, stats)"""
+    import awkward as ak
+    r = C.rng(ctx.seed, "operator-values")
+    bad, n_forms, n_elems = [], 0, 0
+    dist = {}
+    thorough = ctx.tier == "thorough"
+    for dim in (2, 3, 4):
+        nrm = {2: "rho", 3: "mag", 4: "tau"}[dim]
+        nrm2 = nrm + "2"
+        sigs = C.SIGS[dim] if thorough else r.sample(C.SIGS[dim], min(3, len(C.SIGS[dim])))
+        for sig in sigs:
+            for fl in "gm":
+                pts = C.strata_points(dim, r, n_random=2)
+                r.shuffle(pts)
+                rows = [C.cart_to_stored(sig, p) for p in pts[:6]]
+                sig2 = r.choice(C.SIGS[dim])
+                fl2 = r.choice("gm")
+                rows2 = [C.cart_to_stored(sig2, p) for p in C.strata_points(dim, r, n_random=6)[-6:]]
+                n = len(rows)
+                ops = {"": (C.obj_vec(fl, sig, rows[0]), C.obj_vec(fl2, sig2, rows2[0]), 1),
+                       "N.": (C.np_array(fl, sig, rows), C.np_array(fl2, sig2, rows2), n),
+                       "A.": (C.ak_array(fl, sig, rows), C.ak_array(fl2, sig2, rows2), n),
+                       "J.": (ak.unflatten(C.ak_array(fl, sig, rows), [2, 0, 3, 1]), ak.unflatten(C.ak_array(fl2, sig2, rows2), [2, 0, 3, 1]), n)}
+                for tag, (v, w, cnt) in ops.items():
+                    k = r.choice([2.5, -1.5, 0.25])
+                    forms = [
+                        ("v * k", lambda: v * k, lambda: v.scale(k)), ("k * v", lambda: k * v, lambda: v.scale(k)),
+                        ("numpy.multiply(v, k)", lambda: numpy.multiply(v, k), lambda: v.scale(k)),
+                        ("v / k", lambda: v / k, lambda: v.scale(1 / k)), ("numpy.true_divide(v, k)", lambda: numpy.true_divide(v, k), lambda: v.scale(1 / k)),
+                        ("-v", lambda: -v, lambda: v.scale(-1)), ("numpy.negative(v)", lambda: numpy.negative(v), lambda: v.scale(-1)),
+                        ("+v", lambda: +v, lambda: v),
+                        ("abs(v)", lambda: abs(v), lambda: getattr(v, nrm)), ("numpy.absolute(v)", lambda: numpy.absolute(v), lambda: getattr(v, nrm)),
+                        ("v ** 2", lambda: v ** 2, lambda: getattr(v, nrm2)), ("numpy.square(v)", lambda: numpy.square(v), lambda: getattr(v, nrm2)),
+                        ("numpy.power(v, 2)", lambda: numpy.power(v, 2), lambda: getattr(v, nrm2)),
+                        ("v ** 3", lambda: v ** 3, lambda: getattr(v, nrm) ** 3), ("v ** 0.5", lambda: v ** 0.5, lambda: getattr(v, nrm) ** 0.5),
+                        ("v ** -1", lambda: v ** -1, lambda: getattr(v, nrm) ** -1.0),
+                        ("numpy.power(v, 1.5)", lambda: numpy.power(v, 1.5), lambda: getattr(v, nrm) ** 1.5),
+                        ("numpy.sqrt(v)", lambda: numpy.sqrt(v), lambda: getattr(v, nrm) ** 0.5),
+                        ("numpy.cbrt(v)", lambda: numpy.cbrt(v), lambda: getattr(v, nrm) ** (1 / 3)),
+                        ("v + w", lambda: v + w, lambda: v.add(w)), ("numpy.add(v, w)", lambda: numpy.add(v, w), lambda: v.add(w)),
+                        ("v - w", lambda: v - w, lambda: v.subtract(w)), ("numpy.subtract(v, w)", lambda: numpy.subtract(v, w), lambda: v.subtract(w)),
+                        ("v @ w", lambda: v @ w, lambda: v.dot(w)), ("numpy.matmul(v, w)", lambda: numpy.matmul(v, w), lambda: v.dot(w)),
+                        ("v == w", lambda: v == w, lambda: v.equal(w)), ("v != w", lambda: v != w, lambda: v.not_equal(w)),
+                        ("v == v", lambda: v == v, lambda: v.equal(v)),
+                        ("numpy.equal(v, w)", lambda: numpy.equal(v, w), lambda: v.equal(w)),
+                        ("numpy.not_equal(v, w)", lambda: numpy.not_equal(v, w), lambda: v.not_equal(w)),
+                    ]
+                    scale = max(abs(x) for row in rows + rows2 for x in row)
+                    for name, fo, fm in forms:
+                        n_forms += 1
+                        key = f"operator:{tag}{name}"
+                        desc = f"{name} on {tag or 'object '}{fl}:{sig}" + (f" with {fl2}:{sig2}" if " w" in name else "") + (f" k={k}" if "k" in name else "")
+                        try:
+                            want = fm()
+                        except Exception:  # noqa: BLE001  (method itself undefined here: nothing to compare)
+                            continue
+                        try:
+                            got = fo()
+                        except Exception as e:  # noqa: BLE001
+                            if tag in ("A.", "J.") and "matmul" in name + str(e) and isinstance(e, NotImplementedError):
+                                key = "awkward-matmul"
+                            bad.append((desc, f"operator form raises {type(e).__name__}: {str(e)[:80]}; the method returns a value", key))
+                            continue
+                        tg, tw = type_of(got), type_of(want)
+                        if tg != tw:
+                            bad.append((desc, f"operator form returns {tg}, method returns {tw}", key))
+                            continue
+                        cg, cw = _canon(got, cnt), _canon(want, cnt)
+                        for i, (g, w_) in enumerate(zip(cg, cw)):
+                            n_elems += 1
+                            if not compare_elem(g, w_, scale ** 3):
+                                bad.append((f"{desc} element {i}: {rows[i]}", f"operator form {g}, method {w_}", key))
+                                break
+                        dist[tag or "obj"] = dist.get(tag or "obj", 0) + 1
+    return bad, {"operator_forms": n_forms, "operator_elements": n_elems, "operator_distribution": dist}
